@@ -487,23 +487,32 @@ def validate_observed(run, n, workers):
                       {"cfg": cfg, "template": obs[-1], "observed": obs[:-1]})
     if not traces:
         raise MachineryError("no random configuration rendered")
+    # negative controls: corrupted copies of recorded sequences.  Only a recording that Trace_Filters ACCEPTS can serve as the
+    # base of a control (under a changed Mako a rejected recording, once "corrupted", may happen to be the right sequence),
+    # so controls are prepared for several candidates and evaluated for the first accepted one.
     ncs = []
-    base = [t for t in traces if len(t["apps"]) >= 3 and t["apps"][0] != t["apps"][1]][0]
-    c = json.loads(json.dumps(base))
-    c["id"] = len(traces) + 1
-    c["apps"][0], c["apps"][1] = c["apps"][1], c["apps"][0]
-    ncs.append(("swapped", c))
-    c = json.loads(json.dumps(base))
-    c["id"] = len(traces) + 2
-    c["apps"] = c["apps"][:-1]
-    ncs.append(("dropped", c))
-    c = json.loads(json.dumps(base))
-    c["id"] = len(traces) + 3
-    c["apps"] = c["apps"] + ["str"]
-    ncs.append(("extra", c))
-    verdicts = run.validate_traces("Trace_Filters", TRACE_CFG, traces + [x for _, x in ncs], name="trace-filters", workers=workers)
-    for kind, x in ncs:
-        run.negative_control(not verdicts[x["id"]]["ok"], "Trace_Filters accepted a corrupted application sequence (%s)" % kind)
+    cands = [t for t in traces if len(t["apps"]) >= 3 and t["apps"][0] != t["apps"][1]][:6]
+    nid = len(traces)
+    for base in cands:
+        for kind in ("swapped", "dropped", "extra"):
+            c = json.loads(json.dumps(base))
+            nid += 1
+            c["id"] = nid
+            if kind == "swapped":
+                c["apps"][0], c["apps"][1] = c["apps"][1], c["apps"][0]
+            elif kind == "dropped":
+                c["apps"] = c["apps"][:-1]
+            else:
+                c["apps"] = c["apps"] + ["str"]
+            ncs.append((kind, c, base["id"]))
+    verdicts = run.validate_traces("Trace_Filters", TRACE_CFG, traces + [x for _, x, _ in ncs], name="trace-filters", workers=workers)
+    good = [b["id"] for b in cands if verdicts[b["id"]]["ok"]]
+    if good:
+        for kind, x, bid in ncs:
+            if bid == good[0]:
+                run.negative_control(not verdicts[x["id"]]["ok"], "Trace_Filters accepted a corrupted application sequence (%s)" % kind)
+    elif all(verdicts[t["id"]]["ok"] for t in traces):
+        raise MachineryError("no recorded application sequence is long enough for a negative control")
     run.traces -= len(ncs)
     bad = 0
     for t in traces:
